@@ -166,7 +166,15 @@ def fam_suppress(p: Dict[str, Any], problems: List[str], w: World) -> Tuple[str,
         qs = {"single": [("Q", TA, 12, 1)], "ours-first": [("Q", TA, 12, 1), ("Q", "_b._tcp.local.", 12, 1)],
               "ours-last": [("Q", "_b._tcp.local.", 12, 1), ("Q", "ownb._b._tcp.local.", 33, 1), ("Q", TA, 12, 1)],
               "ours-after-qu": [("Q", "_b._tcp.local.", 12, 0x8001), ("Q", TA, 12, 1)]}[p.get("heard_q", "single")]
-        loop.call_at(t1 / 1000, inject, wire.query(qs, answers=first_ka, id_=77), "10.0.0.60")
+        if p.get("heard_split"):
+            # the heard query arrives as a truncated train: questions + part of the known answers (TC set), then the rest;
+            # whatever this instance does not know travels in the FIRST datagram, the last one holds only records it knows
+            ka1 = [ptr(9, 4500)] if rel == "superset" else first_ka[:1]
+            ka2 = known_at_t2 if rel == "superset" else first_ka[1:]
+            loop.call_at((t1 - 10) / 1000, inject, wire.query(qs, answers=ka1, id_=77, tc=True), "10.0.0.60")
+            loop.call_at(t1 / 1000, inject, wire.query([], answers=ka2, id_=78), "10.0.0.60")
+        else:
+            loop.call_at(t1 / 1000, inject, wire.query(qs, answers=first_ka, id_=77), "10.0.0.60")
     else:
         # first asker: a browser of this very instance, forced QM, cancelled right after its first query; it lists the
         # cache as it is at t1, so 'subset'/'superset' are produced by changing the cache between t1 and t2
@@ -350,6 +358,9 @@ def points(tier: str) -> List[Dict[str, Any]]:
                     pts.append({"fam": "suppress", "first": first, "gap": gap, "rel": rel, "second": second})
                     if second == "QM" and gap in (500, 998, 999, 1000):
                         pts.append({"fam": "suppress", "first": first, "gap": gap, "rel": rel, "second": second, "tick": True})
+                    if first == "heard" and second == "QM" and gap in (1, 500, 999, 1000):
+                        pts.append({"fam": "suppress", "first": first, "gap": gap, "rel": rel, "second": second,
+                                    "heard_split": True})
                     if first == "heard" and second == "QM":
                         for hq in ("ours-first", "ours-last", "ours-after-qu"):
                             pts.append({"fam": "suppress", "first": first, "gap": gap, "rel": rel, "second": second,
